@@ -637,3 +637,59 @@ func RUnitCmp(c *core.Ctx) {
 		c.Anchor("functions that obtain byte offsets (ByteRange / captureIndex / byteIndex)")
 	}
 }
+
+// R-RUNELENNEG: utf8.RuneLen answers -1 for values that are not valid runes.
+func RRuneLenNeg(c *core.Ctx) {
+	c.Rule("R-RUNELENNEG", "wherever utf8.RuneLen is applied to a rune that does not come from decoding a string (an element of a caller's []rune may be a surrogate half or lie above MaxRune) the -1 answer is handled before the width is used: a phi / branch on `width < 0`", 1)
+	p := c.P
+	n := 0
+	for _, fn := range p.ModuleFuncs() {
+		pkg := core.FnPkgPath(fn)
+		if pkg != core.PkgRoot && pkg != core.PkgCompat {
+			continue
+		}
+		name := core.SSAName(fn)
+		cnt := 0
+		for _, b := range fn.Blocks {
+			for _, ins := range b.Instrs {
+				call, ok := ins.(*ssa.Call)
+				if !ok || call.Call.StaticCallee() == nil || call.Call.StaticCallee().String() != "unicode/utf8.RuneLen" {
+					continue
+				}
+				arg := call.Call.Args[0]
+				if _, isC := arg.(*ssa.Const); isC {
+					continue
+				}
+				if ex, ok := arg.(*ssa.Extract); ok {
+					if nx, ok := ex.Tuple.(*ssa.Next); ok && nx.IsString {
+						continue // decoded from a string: always a valid rune (invalid bytes arrive as U+FFFD)
+					}
+				}
+				if _, isParam := arg.(*ssa.Parameter); isParam {
+					continue // a pattern character handed in by the caller of the helper
+				}
+				if mc, ok := arg.(*ssa.UnOp); ok {
+					if _, isFree := mc.X.(*ssa.FreeVar); isFree {
+						continue
+					}
+				}
+				cnt++
+				n++
+				c.Visit(name)
+				guarded := false
+				for _, r := range core.Referrers(call) {
+					if bin, ok := r.(*ssa.BinOp); ok && (bin.Op == token.LSS || bin.Op == token.LEQ || bin.Op == token.GEQ || bin.Op == token.GTR || bin.Op == token.EQL) {
+						if k, isC := core.IntConst(bin.Y); isC && k <= 0 && k >= -1 {
+							guarded = true
+						}
+					}
+				}
+				c.Check(guarded, fmt.Sprintf("%s / RuneLen #%d of a caller-supplied rune handles the -1 answer", name, cnt), call.Pos(),
+					"the rune comes from a []rune the caller filled, so it may be a surrogate half or exceed MaxRune; RuneLen then returns -1 and the byte position moves backwards")
+			}
+		}
+	}
+	if n == 0 {
+		c.Anchor("utf8.RuneLen on runes that do not come from a string")
+	}
+}
